@@ -162,8 +162,12 @@ Proof. intros c n Q m o' H. auto. Qed.
 (* ================================================================ the simulation relation: basic moves *)
 Section Sim.
   Variable clean : text -> text.
-  Notation agree_ns := (agree_ns clean).
-  Notation agree_obj := (agree_obj clean).
+  Variable vals : bool.          (* relate stored literals with bound values ... *)
+  Variable strict : bool.        (* ... which needs the strict subset *)
+  Hypothesis Hstrict : vals = true -> strict = true.
+  Notation agree_ns := (agree_ns clean vals).
+  Notation agree_obj := (agree_obj clean vals).
+  Notation val_rel := C03Rel.val_rel.
 
   Lemma agree_empty : forall sc, agree_ns sc [] [].
   Proof.
@@ -349,7 +353,7 @@ Section Sim.
       { intro Hk. pose proof (upd_attr_upd' a f s k d an v ND E) as HU. split; [|split].
         + eapply inv_doc; [exact HA|exact (proj1 HU)| |right; split; reflexivity].
           intros v0 Hv0 Ha. specialize (R4 _ _ _ E Hv0 Ha). inversion R4; subst; [congruence|].
-          constructor. discriminate.
+          constructor; [discriminate|intros _; left; reflexivity].
         + eapply good_upd; [exact HG|exact HU|exact Logic.I|cbn; discriminate].
         + eapply cur_ok_some; [cbn; rewrite (proj2 (proj1 HU)), text_eqb_refl; reflexivity|]. subst f. cbn. intros; discriminate. }
       destruct k; try (apply Hres; discriminate). split; [exact HA|split; [exact HG|exact HC]].
@@ -471,33 +475,67 @@ Section Sim.
   Definition not_fun_class (v : option pyval) : Prop :=
     match v with Some (VFun _ _ _) | Some (VClass _ _ _) => False | _ => True end.
 
+  (* what is known about the literal remembered for an existing entry, when Python's binding is not a function/class *)
+  Lemma old_val_rel : forall sc c e n k d a v,
+      agree_ns sc c e -> lookup n c = Some (OAttr k d a v) -> not_fun_class (plookup n e) -> vals = true ->
+      k = KInstanceVar \/ exists w, plookup n e = Some (VData w) /\ forall l, v = Some (AvLit l) -> w = Some l.
+  Proof.
+    intros sc c e n k d a v H Hl Hnf Hv. inversion H as [? ? ? R1 R2 R3 R4]; subst.
+    destruct (R3 _ _ Hl) as [Hd|[_ Hi]].
+    - unfold pdef in Hd. destruct (plookup n e) as [v0|] eqn:E; [|discriminate].
+      assert (Ha : is_aux v0 = false) by (destruct (is_aux v0); [discriminate|reflexivity]).
+      specialize (R4 _ _ _ Hl E Ha). inversion R4; subst; cbn in Hnf; try contradiction.
+      match goal with Hr : _ -> C03Rel.val_rel _ _ _ |- _ => destruct (Hr ltac:(first [assumption|reflexivity])) as [?|Hr'] end; eauto.
+    - destruct k; try discriminate. auto.
+  Qed.
+
   Lemma St_var : forall sc s e default flow n ann expr aug pv,
       St sc s e -> default <> KProperty -> not_fun_class (plookup n e) ->
+      (vals = true -> forall l, expr = Some (RLit l) -> aug = false -> pv = Some l) ->
+      (vals = true -> expr = None -> literal_bound n e = false) ->
       St sc (handle_var default flow n ann expr aug
                (match lookup n (contents s) with Some _ => s | None => add_obj n (OAttr default None None None) s end))
          (bind n (VData pv) e).
   Proof.
-    intros sc s e default flow n ann expr aug pv HS Hd Hnf. unfold handle_var.
+    intros sc s e default flow n ann expr aug pv HS Hd Hnf H1 H2. unfold handle_var.
     pose proof (St_nodup _ _ _ HS) as ND. destruct HS as [HA [HG HC]].
     set (f := fun k (d : option text) a v => OAttr (handle_constant n flow default k v expr) d (set_ann a ann) (store_value v expr aug)).
-    assert (Hfin : forall s1 o, upd (contents s) n o (contents s1) -> (exists k d a v, o = OAttr k d a v /\ k <> KProperty) ->
+    assert (Hfin : forall s1 o, upd (contents s) n o (contents s1) ->
+                   (exists k d a v, o = OAttr k d a v /\ k <> KProperty /\ (vals = true -> val_rel k v pv)) ->
                    St sc (set_cur (if aug then None else Some n) s1) (bind n (VData pv) e)).
-    { intros s1 o HU [k [d [a [v [Ho Hk]]]]]. subst o. split; [|split]; cbn [contents set_cur].
-      - eapply inv_point; [exact HA|exact (proj1 HU)| |reflexivity]. constructor. exact Hk.
+    { intros s1 o HU [k [d [a [v [Ho [Hk Hvr]]]]]]. subst o. split; [|split]; cbn [contents set_cur].
+      - eapply inv_point; [exact HA|exact (proj1 HU)| |reflexivity]. constructor; assumption.
       - eapply good_upd; [exact HG|exact HU|exact Logic.I|cbn; discriminate].
       - destruct aug; [apply cur_ok_none; reflexivity|].
         eapply cur_ok_some; [rewrite (proj2 (proj1 HU)), text_eqb_refl; reflexivity|]. intros d1 a1 v1 Heq. inversion Heq. congruence. }
+    (* the literal stored after the update, against the value bound *)
+    assert (Hstore : forall k v, (vals = true -> k = KInstanceVar \/ exists w, plookup n e = Some (VData w) /\ forall l, v = Some (AvLit l) -> w = Some l)
+                                 \/ v = None ->
+                     vals = true -> val_rel (handle_constant n flow default k v expr) (store_value v expr aug) pv).
+    { intros k v Hold Hv. unfold C03Rel.val_rel. destruct expr as [r|].
+      - right. intros l Hl. cbn in Hl. destruct aug.
+        + destruct v; discriminate.
+        + destruct r; cbn in Hl; try discriminate. inversion Hl; subst. eapply H1; eauto.
+      - cbn [store_value]. specialize (H2 Hv eq_refl). unfold literal_bound in H2.
+        assert (Hk : handle_constant n flow default k v None = match k with KConstant => default | _ => k end).
+        { unfold handle_constant, is_constant. destruct v; reflexivity. }
+        destruct Hold as [Hold|Hnone]; [|subst v; right; intros; discriminate].
+        destruct (Hold Hv) as [Hi|[w [Hw Hl]]].
+        + subst k. left. rewrite Hk. reflexivity.
+        + right. intros l El. rewrite Hw in H2. specialize (Hl _ El). subst w. discriminate. }
     destruct (lookup n (contents s)) as [o|] eqn:E.
     - destruct (doc_entry_of_data _ _ _ _ _ HA E Hnf) as [k [d [a [v [Ho Hk]]]]]. subst o.
       pose proof (upd_attr_upd' n f s k d a v ND E) as HU.
-      eapply Hfin; [exact HU|]. subst f. cbn. do 4 eexists. split; [reflexivity|]. apply handle_constant_not_property; auto.
+      eapply Hfin; [exact HU|]. subst f. cbn. do 4 eexists. split; [reflexivity|]. split; [apply handle_constant_not_property; auto|].
+      apply Hstore. left. intro Hv. eapply old_val_rel; eauto.
     - set (blank := OAttr default None None None).
       pose proof (add_obj_upd' n blank s ND) as HU1.
       assert (E1 : lookup n (contents (add_obj n blank s)) = Some blank).
       { rewrite (proj2 (proj1 HU1)). rewrite text_eqb_refl. reflexivity. }
       pose proof (upd_attr_upd' n f (add_obj n blank s) _ _ _ _ (proj1 (proj1 HU1)) E1) as HU2.
       pose proof (upd_trans_attr _ _ _ _ _ _ HU1 eq_refl HU2) as HU.
-      eapply Hfin; [exact HU|]. subst f blank. cbn. do 4 eexists. split; [reflexivity|]. apply handle_constant_not_property; auto.
+      eapply Hfin; [exact HU|]. subst f blank. cbn. do 4 eexists. split; [reflexivity|]. split; [apply handle_constant_not_property; auto|].
+      apply Hstore. right. reflexivity.
   Qed.
 
   Lemma meta_tables : module_meta_vars = py_meta_names.
@@ -531,9 +569,11 @@ Section Sim.
       (if aug return Prop then (exists w, plookup n e = Some (VData w)) /\ mem n py_meta_names = false /\ e' = bind n (VData pv) e
        else bind_data n (VData pv) e = Some e') ->
       (sc = ScClass -> lookup n inh <> Some SNonAttr) ->
+      (vals = true -> forall l, expr = Some (RLit l) -> aug = false -> pv = Some l) ->
+      (vals = true -> expr = None -> literal_bound n e = false) ->
       St sc (handle_assignment sc flow inh chain (TName n) ann expr aug s) e'.
   Proof.
-    intros sc flow inh chain n ann expr aug pv s e e' HS Hpl Hpy Hinh.
+    intros sc flow inh chain n ann expr aug pv s e e' HS Hpl Hpy Hinh Hv1 Hv2.
     assert (Hfacts : mem n py_meta_names = false /\ not_fun_class (plookup n e) /\ e' = bind n (VData pv) e /\
                      (aug = true -> lookup n (contents s) <> None)).
     { destruct aug.
@@ -551,14 +591,14 @@ Section Sim.
       destruct expr as [[| | |]|]; cbn in Hpl; auto; contradiction. }
     cbn [handle_assignment]. destruct sc.
     - rewrite Hal. unfold handle_module_var. rewrite meta_tables, Hmeta.
-      pose proof (St_var ScModule s e KVariable flow n ann expr aug pv HS ltac:(discriminate) Hnf) as HV.
+      pose proof (St_var ScModule s e KVariable flow n ann expr aug pv HS ltac:(discriminate) Hnf Hv1 Hv2) as HV.
       destruct (lookup n (contents s)) as [o|] eqn:E.
       + destruct HS as [HA HG]. destruct (doc_entry_of_data _ _ _ _ _ HA E Hnf) as [k [d [a [v [Ho Hk]]]]]. subst o. exact HV.
       + destruct aug; [exfalso; apply Haug; auto|exact HV].
     - assert (Hold : (if aug then None else oldschool n expr s) = None).
       { destruct aug; auto. destruct Hpl as [Hpl|Hpl]; [discriminate|]. auto using oldschool_plain. }
       rewrite Hold. rewrite Hal. unfold handle_class_var.
-      pose proof (St_var ScClass s e KClassVar flow n ann expr aug pv HS ltac:(discriminate) Hnf) as HV.
+      pose proof (St_var ScClass s e KClassVar flow n ann expr aug pv HS ltac:(discriminate) Hnf Hv1 Hv2) as HV.
       destruct (lookup n (contents s)) as [o|] eqn:E.
       + destruct HS as [HA HG]. destruct (doc_entry_of_data _ _ _ _ _ HA E Hnf) as [k [d [a [v [Ho Hk]]]]]. subst o.
         rewrite (maybe_attribute_present _ _ _ _ E). cbn [is_attr negb]. exact HV.
@@ -568,16 +608,27 @@ Section Sim.
   Qed.
 
   (* ---- visit_Assign *)
+  Lemma bind_unpacked_inv : forall n e e1, bind_unpacked strict n e = Some e1 ->
+      bind_data n (VData None) e = Some e1 /\ (strict = true -> literal_bound n e = false).
+  Proof.
+    intros n e e1 H. unfold bind_unpacked in H. destruct strict; cbn in H.
+    - destruct (literal_bound n e); [discriminate|]. auto.
+    - split; auto. intro; discriminate.
+  Qed.
+
   Lemma St_tuple_names : forall sc flow inh chain ns s e e',
-      St sc s e -> ofold (fun n e => bind_data n (VData None) e) ns e = Some e' ->
+      St sc s e -> ofold (bind_unpacked strict) ns e = Some e' ->
       (forall n, In n ns -> sc = ScClass -> lookup n inh <> Some SNonAttr) ->
       St sc (fold_left (fun s n => handle_assignment sc flow inh chain (TName n) None None false s) ns s) e'.
   Proof.
     intros sc flow inh chain ns. induction ns as [|n ns IH]; cbn; intros s e e' HS Hpy Hinh.
     - inversion Hpy; subst. exact HS.
-    - destruct (bind_data n (VData None) e) as [e1|] eqn:E1; [|discriminate].
+    - destruct (bind_unpacked strict n e) as [e1|] eqn:E1; [|discriminate].
+      destruct (bind_unpacked_inv _ _ _ E1) as [Eb Hlit].
       eapply IH; [|exact Hpy|intros; apply Hinh; auto].
-      apply (St_data_target sc flow inh chain n None None false None s e e1); auto. right; exact I.
+      apply (St_data_target sc flow inh chain n None None false None s e e1); auto.
+      + right; exact I.
+      + intros; discriminate.
   Qed.
 
   Definition assign_step (sc : scope) (flow : bool) (inh : list (name * summary)) (outer : list (contents_t * imps_t)) (r : rhs) :=
@@ -587,17 +638,20 @@ Section Sim.
                end.
 
   Lemma St_targets_data : forall sc flow inh outer r pv ts s e e',
-      St sc s e -> plain_expr (Some r) -> ofold (bind_target (VData pv)) ts e = Some e' ->
+      St sc s e -> plain_expr (Some r) -> ofold (bind_target strict (VData pv)) ts e = Some e' ->
       (forall n, In n (flat_map target_names ts) -> sc = ScClass -> lookup n inh <> Some SNonAttr) ->
+      (forall l, r = RLit l -> pv = Some l) ->
       St sc (fold_left (assign_step sc flow inh outer r) ts s) e'.
   Proof.
-    intros sc flow inh outer r pv ts. induction ts as [|t ts IH]; cbn [fold_left ofold]; intros s e e' HS Hpl Hpy Hinh.
+    intros sc flow inh outer r pv ts. induction ts as [|t ts IH]; cbn [fold_left ofold]; intros s e e' HS Hpl Hpy Hinh Hrv.
     - inversion Hpy; subst. exact HS.
-    - destruct (bind_target (VData pv) t e) as [e1|] eqn:E1; [|discriminate].
-      eapply IH; [|exact Hpl|exact Hpy|intros; apply Hinh; auto; cbn; apply in_or_app; auto].
+    - destruct (bind_target strict (VData pv) t e) as [e1|] eqn:E1; [|discriminate].
+      eapply IH; [|exact Hpl|exact Hpy|intros; apply Hinh; auto; cbn; apply in_or_app; auto|exact Hrv].
       destruct t as [n|ns|a]; cbn [assign_step].
       + cbn in E1. apply (St_data_target sc flow inh outer n None (Some r) false pv s e e1); auto.
-        intros; apply Hinh; auto. cbn. auto.
+        * intros; apply Hinh; auto. cbn. auto.
+        * intros _ l Hl _. inversion Hl. auto.
+        * intros; discriminate.
       + cbn in E1. eapply St_tuple_names; eauto. intros; apply Hinh; auto. cbn. apply in_or_app. auto.
       + discriminate.
   Qed.
@@ -617,13 +671,14 @@ Section Sim.
 
   (* one Name target with the statement's own right-hand side (Assign with a single target, AnnAssign) *)
   Lemma St_single : forall sc flow inh outer n ann r v s e e',
-      St sc s e -> assign_value (pscope_of sc) e [TName n] r = Some v -> bind_target v (TName n) e = Some e' ->
+      St sc s e -> assign_value (pscope_of sc) e [TName n] r = Some v -> bind_target strict v (TName n) e = Some e' ->
       (forall pv, v = VData pv -> sc = ScClass -> lookup n inh <> Some SNonAttr) ->
       St sc (handle_assignment sc flow inh outer (TName n) ann (Some r) false s) e'.
   Proof.
     intros sc flow inh outer n ann r v s e e' HS Ev Hpy Hinh.
     destruct r as [lv|y|f args|]; cbn in Ev.
-    - inversion Ev; subst. cbn in Hpy. specialize (Hinh _ eq_refl). apply (St_data_target sc flow inh outer n ann (Some (RLit lv)) false (Some lv) s e e'); auto. right; exact I.
+    - inversion Ev; subst. cbn in Hpy. specialize (Hinh _ eq_refl). apply (St_data_target sc flow inh outer n ann (Some (RLit lv)) false (Some lv) s e e'); auto;
+        [right; exact I|intros _ l Hl _; inversion Hl; reflexivity|intros; discriminate].
     - discriminate.
     - destruct (text_eqb f p_staticmethod || text_eqb f p_classmethod) eqn:Ef.
       + (* the old-style wrapping of a (possibly already wrapped) method of this class body *)
@@ -654,14 +709,16 @@ Section Sim.
         * intros m Hm d1 a1 v1. cbn in Hm. cbn. rewrite (proj2 (proj1 HU)).
           destruct (text_eqb m n) eqn:Emn; [discriminate|]. exact (HC m Hm d1 a1 v1).
       + destruct (text_eqb f p_property); [discriminate|]. inversion Ev; subst. cbn in Hpy. specialize (Hinh _ eq_refl).
-        apply (St_data_target sc flow inh outer n ann (Some (RCall f args)) false None s e e'); auto.
+        apply (St_data_target sc flow inh outer n ann (Some (RCall f args)) false None s e e'); auto;
+          [|intros; discriminate|intros; discriminate].
         right. unfold plain_expr. rewrite oldschool_table. cbn.
         apply orb_false_iff in Ef. destruct Ef as [E1 E2]. rewrite E1, E2. reflexivity.
-    - inversion Ev; subst. cbn in Hpy. specialize (Hinh _ eq_refl). apply (St_data_target sc flow inh outer n ann (Some ROther) false None s e e'); auto. right; exact I.
+    - inversion Ev; subst. cbn in Hpy. specialize (Hinh _ eq_refl). apply (St_data_target sc flow inh outer n ann (Some ROther) false None s e e'); auto;
+        [right; exact I|intros; discriminate|intros; discriminate].
   Qed.
 
   Lemma St_assign : forall sc flow inh outer ts r s e e',
-      St sc s e -> py_stmt (Assign ts r) (pscope_of sc) e = Some e' ->
+      St sc s e -> py_stmt strict (Assign ts r) (pscope_of sc) e = Some e' ->
       (forall n, In n (assigned_names (Assign ts r)) -> sc = ScClass -> lookup n inh <> Some SNonAttr) ->
       St sc (walk_stmt clean (Assign ts r) sc flow inh outer s) e'.
   Proof.
@@ -679,7 +736,7 @@ Section Sim.
         [|destruct (text_eqb f p_property); discriminate].
       destruct (pscope_of sc) eqn:Esc; [discriminate|].
       destruct ts as [|[n| |] [|? ?]]; try discriminate.
-      cbn [ofold] in Hpy. destruct (bind_target (VFun asy w d) (TName n) e) as [e1|] eqn:Eb; [|discriminate].
+      cbn [ofold] in Hpy. destruct (bind_target strict (VFun asy w d) (TName n) e) as [e1|] eqn:Eb; [|discriminate].
       inversion Hpy; subst e1. cbn [fold_left assign_step].
       eapply St_single; eauto.
       * rewrite Esc. cbn. rewrite Ef. exact Ev.
@@ -702,6 +759,7 @@ Section Sim.
           * unfold is_wrapping. destruct args as [|a [|? ?]]; auto. destruct ts as [|[n| |] [|? ?]]; auto.
             rewrite Ef. apply andb_false_r. }
       destruct Hplain as [Hplain Hw]. eapply St_targets_data; eauto.
+      intros l Hl. subst r. cbn in Ev. inversion Ev. reflexivity.
     - destruct r as [lv|y|f args|]; cbn in Ev; try discriminate.
       destruct (text_eqb f p_staticmethod || text_eqb f p_classmethod).
       + destruct (pscope_of sc); [discriminate|]. destruct ts as [|[n| |] [|? ?]]; try discriminate.
@@ -711,7 +769,7 @@ Section Sim.
   Qed.
 
   Lemma St_annassign : forall sc flow inh outer t ann r s e e',
-      St sc s e -> py_stmt (AnnAssign t ann r) (pscope_of sc) e = Some e' ->
+      St sc s e -> py_stmt strict (AnnAssign t ann r) (pscope_of sc) e = Some e' ->
       (forall n, In n (target_names t) -> sc = ScClass -> lookup n inh <> Some SNonAttr) ->
       St sc (walk_stmt clean (AnnAssign t ann r) sc flow inh outer s) e'.
   Proof.
@@ -722,7 +780,7 @@ Section Sim.
   Qed.
 
   Lemma St_augassign : forall sc flow inh outer t r s e e',
-      St sc s e -> py_stmt (AugAssign t r) (pscope_of sc) e = Some e' ->
+      St sc s e -> py_stmt strict (AugAssign t r) (pscope_of sc) e = Some e' ->
       (forall n, In n (target_names t) -> sc = ScClass -> lookup n inh <> Some SNonAttr) ->
       St sc (walk_stmt clean (AugAssign t r) sc flow inh outer s) e'.
   Proof.
@@ -733,6 +791,8 @@ Section Sim.
     apply (St_data_target sc flow inh outer n None (Some r) true None s e (bind n (VData None) e)); auto.
     - repeat split; eauto.
     - intros; apply Hinh; auto. cbn. auto.
+    - intros; discriminate.
+    - intros; discriminate.
   Qed.
 
   (* ---- decorators: what _handleFunctionDef computes against what the decorators do *)
@@ -823,7 +883,7 @@ Section Sim.
 
   (* ---- _handleFunctionDef *)
   Lemma St_def : forall sc flow inh outer nm ds a body s e e',
-      St sc s e -> py_stmt (Def nm ds a body) (pscope_of sc) e = Some e' -> In nm DN ->
+      St sc s e -> py_stmt strict (Def nm ds a body) (pscope_of sc) e = Some e' -> In nm DN ->
       St sc (walk_stmt clean (Def nm ds a body) sc flow inh outer s) e'.
   Proof.
     intros sc flow inh outer nm ds a body s e e' HS Hpy Hdn. cbn [py_stmt] in Hpy.
@@ -1055,28 +1115,29 @@ Section Sim.
 
   Definition imps_step_ok (x : stmt) : Prop :=
     forall sc flow inh outer s e e',
-      imps_ok s e -> py_stmt x (pscope_of sc) e = Some e' -> imps_ok (walk_stmt clean x sc flow inh outer s) e'.
+      imps_ok s e -> py_stmt strict x (pscope_of sc) e = Some e' -> imps_ok (walk_stmt clean x sc flow inh outer s) e'.
 
   Lemma imps_suite : forall body, Forall imps_step_ok body ->
       forall sc flow inh outer s e e',
-        imps_ok s e -> ofold (fun y e' => py_stmt y (pscope_of sc) e') body e = Some e' ->
+        imps_ok s e -> ofold (fun y e' => py_stmt strict y (pscope_of sc) e') body e = Some e' ->
         imps_ok (fold_left (fun st y => walk_stmt clean y sc flow inh outer st) body s) e'.
   Proof.
     intros body HF. induction HF as [|y body Hy _ IH]; cbn [fold_left ofold]; intros sc flow inh outer s e e' HI Hpy.
     - inversion Hpy; subst. exact HI.
-    - destruct (py_stmt y (pscope_of sc) e) as [e1|] eqn:E1; [|discriminate]. eapply IH; eauto.
+    - destruct (py_stmt strict y (pscope_of sc) e) as [e1|] eqn:E1; [|discriminate]. eapply IH; eauto.
   Qed.
 
-  Lemma ofold_bind_data_mono : forall ns e e' v,
-      ofold (fun n e => bind_data n v e) ns e = Some e' -> forall n, plookup n e <> None -> plookup n e' <> None.
+  Lemma ofold_bind_data_mono : forall ns e e',
+      ofold (bind_unpacked strict) ns e = Some e' -> forall n, plookup n e <> None -> plookup n e' <> None.
   Proof.
-    induction ns as [|m ns IH]; cbn; intros e e' v H n Hn; [inversion H; subst; auto|].
-    destruct (bind_data m v e) as [e1|] eqn:E; [|discriminate]. eapply IH; eauto.
+    induction ns as [|m ns IH]; cbn; intros e e' H n Hn; [inversion H; subst; auto|].
+    destruct (bind_unpacked strict m e) as [e1|] eqn:E; [|discriminate]. eapply IH; eauto.
+    apply bind_unpacked_inv in E. destruct E as [E _].
     unfold bind_data in E. destruct (mem m py_meta_names); [discriminate|].
     destruct (plookup m e) as [[| | |]|]; inversion E; subst; apply plookup_bind_mono; auto.
   Qed.
 
-  Lemma bind_target_mono : forall v t e e', bind_target v t e = Some e' -> forall n, plookup n e <> None -> plookup n e' <> None.
+  Lemma bind_target_mono : forall v t e e', bind_target strict v t e = Some e' -> forall n, plookup n e <> None -> plookup n e' <> None.
   Proof.
     intros v t e e' H n Hn. destruct t as [m|ns|a]; cbn in H; [|eapply ofold_bind_data_mono; eauto|discriminate].
     assert (Hb : forall w, bind_data m w e = Some e' -> plookup n e' <> None).
@@ -1106,7 +1167,7 @@ Section Sim.
       apply Forall_forall. intros; apply fwalk_imps.
     - (* Class *)
       cbn [py_stmt] in Hpy. destruct (bases_exc e bs); [|discriminate].
-      destruct (ofold (fun y e'0 => py_stmt y PClass e'0) body []); [|discriminate]. inversion Hpy; subst.
+      destruct (ofold (fun y e'0 => py_stmt strict y PClass e'0) body []); [|discriminate]. inversion Hpy; subst.
       eapply imps_ok_mono; [|intros; apply plookup_bind_mono; eassumption|exact HI].
       cbn [walk_stmt]. cbn. apply imps_add_obj.
     - (* Assign *)
@@ -1115,7 +1176,7 @@ Section Sim.
       { intros y Hy. inversion Hy; subst. cbn in Ev. discriminate. }
       clear Ev. revert s e HI Hpy. induction ts as [|t ts IHts]; cbn [fold_left ofold]; intros s e HI Hpy.
       + inversion Hpy; subst; exact HI.
-      + destruct (bind_target v t e) as [e1|] eqn:Eb; [|discriminate]. eapply IHts; [|exact Hpy].
+      + destruct (bind_target strict v t e) as [e1|] eqn:Eb; [|discriminate]. eapply IHts; [|exact Hpy].
         intros n Hn. eapply bind_target_mono; [exact Eb|]. apply HI.
         destruct t as [m|ms|a0].
         * destruct (imps_handle_assignment _ _ _ _ _ _ _ _ _ _ Hn) as [?|[_ [y Hy]]]; auto. exfalso. eapply Hr; eauto.
@@ -1222,7 +1283,7 @@ Section Sim.
       St sc s e -> good_chain outer -> imps_ok s e -> (sc = ScModule -> outer = []) ->
       (forall n, In n (assigned_names x) -> sc = ScClass -> lookup n inh <> Some SNonAttr) ->
       no_inherited_shadow DN x = true -> incl (def_names x) DN ->
-      py_stmt x (pscope_of sc) e = Some e' ->
+      py_stmt strict x (pscope_of sc) e = Some e' ->
       St sc (walk_stmt clean x sc flow inh outer s) e'.
 
   Lemma suite_step : forall body, Forall step_ok body ->
@@ -1230,12 +1291,12 @@ Section Sim.
         St sc s e -> good_chain outer -> imps_ok s e -> (sc = ScModule -> outer = []) ->
         (forall n, In n (flat_map assigned_names body) -> sc = ScClass -> lookup n inh <> Some SNonAttr) ->
         forallb (no_inherited_shadow DN) body = true -> incl (flat_map def_names body) DN ->
-        ofold (fun y e' => py_stmt y (pscope_of sc) e') body e = Some e' ->
+        ofold (fun y e' => py_stmt strict y (pscope_of sc) e') body e = Some e' ->
         St sc (fold_left (fun st y => walk_stmt clean y sc flow inh outer st) body s) e'.
   Proof.
     intros body HF. induction HF as [|y body Hy _ IH]; cbn [fold_left ofold]; intros sc flow inh outer s e e' HS HG HI Hout Hinh Hsh Hdn Hpy.
     - inversion Hpy; subst. exact HS.
-    - destruct (py_stmt y (pscope_of sc) e) as [e1|] eqn:E1; [|discriminate].
+    - destruct (py_stmt strict y (pscope_of sc) e) as [e1|] eqn:E1; [|discriminate].
       cbn in Hsh. apply andb_true_iff in Hsh. destruct Hsh as [Hsh1 Hsh2].
       eapply IH; [|exact HG|eapply imps_step; eauto|exact Hout| |exact Hsh2| |exact Hpy].
       + eapply Hy; eauto.
@@ -1275,7 +1336,7 @@ Section Sim.
     - (* Class *)
       cbn [py_stmt] in Hpy.
       destruct (bases_exc e bs) as [xc|] eqn:Eb; [|discriminate].
-      destruct (ofold (fun y e'0 => py_stmt y PClass e'0) body []) as [ns|] eqn:En; [|discriminate].
+      destruct (ofold (fun y e'0 => py_stmt strict y PClass e'0) body []) as [ns|] eqn:En; [|discriminate].
       inversion Hpy; subst e'. clear Hpy.
       cbn [walk_stmt].
       set (chain := (contents s, imps s) :: outer).
@@ -1371,24 +1432,24 @@ Scheme agree_obj_min := Minimality for agree_obj Sort Prop
 Lemma post_obj_ivar : forall inh n o, is_ivar_obj o = true -> is_ivar_obj (post_obj inh n o) = true.
 Proof. intros inh n o H. destruct o as [| |k d a v]; try discriminate. destruct k; try discriminate. exact H. Qed.
 
-Lemma post_agree : forall clean,
-    (forall sc o v, agree_obj clean sc o v -> forall inh n, agree_obj clean sc (post_obj inh n o) v) /\
-    (forall sc c e, agree_ns clean sc c e -> forall inh, agree_ns clean sc (post_contents inh c) e).
+Lemma post_agree : forall clean vals,
+    (forall sc o v, agree_obj clean vals sc o v -> forall inh n, agree_obj clean vals sc (post_obj inh n o) v) /\
+    (forall sc c e, agree_ns clean vals sc c e -> forall inh, agree_ns clean vals sc (post_contents inh c) e).
 Proof.
-  intro clean.
-  assert (H : forall sc, (forall o v, agree_obj clean sc o v -> forall inh n, agree_obj clean sc (post_obj inh n o) v)
-                         /\ (forall c e, agree_ns clean sc c e -> forall inh, agree_ns clean sc (post_contents inh c) e)).
+  intros clean vals.
+  assert (H : forall sc, (forall o v, agree_obj clean vals sc o v -> forall inh n, agree_obj clean vals sc (post_obj inh n o) v)
+                         /\ (forall c e, agree_ns clean vals sc c e -> forall inh, agree_ns clean vals sc (post_contents inh c) e)).
   2: { split; intros sc; apply (H sc). }
   intro sc0.
-  assert (Hobj : forall sc o v, agree_obj clean sc o v -> forall inh n, agree_obj clean sc (post_obj inh n o) v).
-  { apply (agree_obj_min clean
-             (fun sc o v => forall inh n, agree_obj clean sc (post_obj inh n o) v)
-             (fun sc c e => forall inh, agree_ns clean sc (post_contents inh c) e)).
+  assert (Hobj : forall sc o v, agree_obj clean vals sc o v -> forall inh n, agree_obj clean vals sc (post_obj inh n o) v).
+  { apply (agree_obj_min clean vals
+             (fun sc o v => forall inh n, agree_obj clean vals sc (post_obj inh n o) v)
+             (fun sc c e => forall inh, agree_ns clean vals sc (post_contents inh c) e)).
     - intros sc k a d w d' Hk Hd inh n. cbn. constructor; auto.
     - intros d an va a d' Hd inh n. cbn. constructor; auto.
     - intros sc x d c oo ih x' d' ns Hd _ IH Hx inh n. cbn. constructor; auto. apply (IH ih).
-    - intros sc k d an va v Hk inh n. cbn. destruct k; try (constructor; assumption).
-      destruct (inherits_ivar inh n); constructor; discriminate.
+    - intros sc k d an va v Hk Hvr inh n. cbn. destruct k; try (constructor; assumption).
+      destruct (inherits_ivar inh n); constructor; try discriminate; try assumption. intros _; left; reflexivity.
     - intros sc c e R1 R2 R3 R4 IH4 inh. unfold post_contents. constructor.
       + rewrite (keys_map (post_obj inh)). exact R1.
       + intros n Hn. rewrite (lookup_map (post_obj inh)). specialize (R2 n Hn). destruct (lookup n c); congruence.
@@ -1407,17 +1468,18 @@ Proof.
 Qed.
 
 (* ================================================================ the whole module *)
-Theorem module_simulation : forall clean prog e,
-    py_exec prog = Some e -> shadow_guard prog = true ->
-    agree_ns clean ScModule (m_contents (doc_walk clean prog)) e.
+Theorem module_simulation_gen : forall clean vals strict prog e,
+    (vals = true -> strict = true) ->
+    py_body strict PModule prog [] = Some e -> shadow_guard prog = true ->
+    agree_ns clean vals ScModule (m_contents (doc_walk clean prog)) e.
 Proof.
-  intros clean prog e Hpy Hg. unfold doc_walk, doc_walk_raw, walk_body. cbn [m_contents].
-  apply (proj2 (post_agree clean)). apply agree_infer_all.
+  intros clean vals strict prog e Hvs Hpy Hg. unfold doc_walk, doc_walk_raw, walk_body. cbn [m_contents].
+  apply (proj2 (post_agree clean vals)). apply agree_infer_all.
   pose (DN := flat_map def_names prog).
-  assert (HS : St clean DN ScModule
+  assert (HS : St clean vals DN ScModule
                   (fold_left (fun st y => walk_stmt clean y ScModule false [] [] st) prog empty_st) e).
-  { eapply (suite_step clean DN prog); try exact Hpy.
-    - apply Forall_forall. intros x _. apply step.
+  { eapply (suite_step clean vals strict Hvs DN prog); try exact Hpy.
+    - apply Forall_forall. intros x _. apply (step clean vals strict Hvs).
     - split; [apply agree_empty|]. split; [split; intros n o []|apply cur_ok_none; reflexivity].
     - constructor.
     - intros n Hn. cbn in Hn. congruence.
@@ -1428,6 +1490,11 @@ Proof.
   exact (proj1 HS).
 Qed.
 
+Theorem module_simulation : forall clean prog e,
+    py_exec prog = Some e -> shadow_guard prog = true ->
+    agree_ns clean false ScModule (m_contents (doc_walk clean prog)) e.
+Proof. intros clean prog e. apply (module_simulation_gen clean false false). intro; discriminate. Qed.
+
 (* ---- reading the relation ---------------------------------------------------------------------------- *)
 Lemma lookup_keys : forall {X} n (l : list (name * X)), In n (keys l) <-> lookup n l <> None.
 Proof.
@@ -1436,39 +1503,39 @@ Proof.
   - destruct (in_dec (list_eq_dec N.eq_dec) n (keys l)) as [Hi|Hi]; auto. apply H in Hi. contradiction.
 Qed.
 
-Lemma agree_keys_module : forall clean c e,
-    agree_ns clean ScModule c e -> NoDup (keys c) /\ forall n, In n (keys c) <-> pdef n e = true.
+Lemma agree_keys_module : forall clean vals c e,
+    agree_ns clean vals ScModule c e -> NoDup (keys c) /\ forall n, In n (keys c) <-> pdef n e = true.
 Proof.
-  intros clean c e H. inversion H as [? ? ? R1 R2 R3 R4]; subst. split; auto.
+  intros clean vals c e H. inversion H as [? ? ? R1 R2 R3 R4]; subst. split; auto.
   intro n. rewrite lookup_keys. split.
   - intro Hn. destruct (lookup n c) as [o|] eqn:E; [|congruence]. destruct (R3 _ _ E) as [?|[? _]]; [auto|discriminate].
   - apply R2.
 Qed.
 
-Lemma agree_keys_class : forall clean c e,
-    agree_ns clean ScClass c e ->
+Lemma agree_keys_class : forall clean vals c e,
+    agree_ns clean vals ScClass c e ->
     NoDup (keys c) /\ (forall n, pdef n e = true -> In n (keys c)) /\
     (forall n o, lookup n c = Some o -> pdef n e = true \/ is_ivar_obj o = true).
 Proof.
-  intros clean c e H. inversion H as [? ? ? R1 R2 R3 R4]; subst. split; [auto|split].
+  intros clean vals c e H. inversion H as [? ? ? R1 R2 R3 R4]; subst. split; [auto|split].
   - intros n Hn. apply lookup_keys. auto.
   - intros n o Hl. destruct (R3 _ _ Hl) as [?|[_ ?]]; auto.
 Qed.
 
-Lemma agree_entry : forall clean sc c e n o v,
-    agree_ns clean sc c e -> lookup n c = Some o -> plookup n e = Some v -> is_aux v = false -> agree_obj clean sc o v.
-Proof. intros clean sc c e n o v H. inversion H; subst. eauto. Qed.
+Lemma agree_entry : forall clean vals sc c e n o v,
+    agree_ns clean vals sc c e -> lookup n c = Some o -> plookup n e = Some v -> is_aux v = false -> agree_obj clean vals sc o v.
+Proof. intros clean vals sc c e n o v H. inversion H; subst. eauto. Qed.
 
-Lemma agree_reach : forall clean c e sc c' e',
-    agree_ns clean ScModule c e -> ns_at c e sc c' e' -> agree_ns clean sc c' e'.
+Lemma agree_reach : forall clean vals c e sc c' e',
+    agree_ns clean vals ScModule c e -> ns_at c e sc c' e' -> agree_ns clean vals sc c' e'.
 Proof.
-  intros clean c e sc c' e' H Hr. induction Hr as [|sc c1 e1 n x d c2 oo ih x' d' e2 Hr IH Hl Hp]; auto.
-  pose proof (agree_entry _ _ _ _ _ _ _ IH Hl Hp eq_refl) as Ho. inversion Ho; subst. assumption.
+  intros clean vals c e sc c' e' H Hr. induction Hr as [|sc c1 e1 n x d c2 oo ih x' d' e2 Hr IH Hl Hp]; auto.
+  pose proof (agree_entry _ _ _ _ _ _ _ _ IH Hl Hp eq_refl) as Ho. inversion Ho; subst. assumption.
 Qed.
 
-Lemma agree_kind_ok : forall clean sc o v, agree_obj clean sc o v -> kind_ok sc o v /\ doc_ok clean o v.
+Lemma agree_kind_ok : forall clean vals sc o v, agree_obj clean vals sc o v -> kind_ok sc o v /\ doc_ok clean o v.
 Proof.
-  intros clean sc o v H. inversion H; subst; cbn; auto; try (destruct k; auto; contradiction).
+  intros clean vals sc o v H. inversion H; subst; cbn; auto; try (destruct k; auto; contradiction).
 Qed.
 
 Theorem names_agree : forall clean prog e sc c' e',
@@ -1479,7 +1546,7 @@ Theorem names_agree : forall clean prog e sc c' e',
     (forall n, In n (keys c') -> pdef n e' = true \/ (sc = ScClass /\ exists o, lookup n c' = Some o /\ is_ivar_obj o = true)).
 Proof.
   intros clean prog e sc c' e' Hpy Hg Hr.
-  pose proof (agree_reach _ _ _ _ _ _ (module_simulation clean prog e Hpy Hg) Hr) as H.
+  pose proof (agree_reach _ _ _ _ _ _ _ (module_simulation clean prog e Hpy Hg) Hr) as H.
   inversion H as [? ? ? R1 R2 R3 R4]; subst. split; [auto|split].
   - intros n Hn. apply lookup_keys. auto.
   - intros n Hn. apply lookup_keys in Hn. destruct (lookup n c') as [o|] eqn:E; [|congruence].
@@ -1493,8 +1560,8 @@ Theorem kinds_agree : forall clean prog e sc c' e' n o v,
     kind_ok sc o v /\ doc_ok clean o v.
 Proof.
   intros clean prog e sc c' e' n o v Hpy Hg Hr Hl Hp Ha.
-  pose proof (agree_reach _ _ _ _ _ _ (module_simulation clean prog e Hpy Hg) Hr) as H.
-  apply agree_kind_ok. eapply agree_entry; eauto.
+  pose proof (agree_reach _ _ _ _ _ _ _ (module_simulation clean prog e Hpy Hg) Hr) as H.
+  apply (agree_kind_ok clean false). eapply agree_entry; eauto.
 Qed.
 
 (* a Python class is documented as a class, so every class namespace of the program is reached by ns_at *)
@@ -1504,11 +1571,63 @@ Theorem classes_reached : forall clean prog e sc c' e' n x' d' e2,
     exists x d c2 oo ih, lookup n c' = Some (OClass x d c2 oo ih).
 Proof.
   intros clean prog e sc c' e' n x' d' e2 Hpy Hg Hr Hp.
-  pose proof (agree_reach _ _ _ _ _ _ (module_simulation clean prog e Hpy Hg) Hr) as H.
+  pose proof (agree_reach _ _ _ _ _ _ _ (module_simulation clean prog e Hpy Hg) Hr) as H.
   inversion H as [? ? ? R1 R2 R3 R4]; subst.
   assert (Hd : pdef n e' = true) by (unfold pdef; rewrite Hp; reflexivity).
   specialize (R2 n Hd). destruct (lookup n c') as [o|] eqn:E; [|congruence].
   specialize (R4 _ _ _ E Hp eq_refl). inversion R4; subst. eauto 8.
+Qed.
+
+(* the literal pydoctor remembers for a variable is the literal whose value Python has bound to it (strict subset) *)
+Theorem stored_literal_is_bound : forall clean prog e sc c' e' n k d an l pv,
+    py_exec_strict prog = Some e -> shadow_guard prog = true ->
+    ns_at (m_contents (doc_walk clean prog)) e sc c' e' ->
+    lookup n c' = Some (OAttr k d an (Some (AvLit l))) -> k <> KInstanceVar ->
+    plookup n e' = Some (VData pv) -> pv = Some l.
+Proof.
+  intros clean prog e sc c' e' n k d an l pv Hpy Hg Hr Hl Hk Hp.
+  assert (Hm : agree_ns clean true ScModule (m_contents (doc_walk clean prog)) e).
+  { apply (module_simulation_gen clean true true); auto. }
+  pose proof (agree_reach _ _ _ _ _ _ _ Hm Hr) as H.
+  pose proof (agree_entry _ _ _ _ _ _ _ _ H Hl Hp eq_refl) as Ho. inversion Ho; subst.
+  match goal with Hv : true = true -> val_rel _ _ _ |- _ => destruct (Hv eq_refl) as [?|Hv'] end; [contradiction|auto].
+Qed.
+
+Lemma py_strict_lax : forall x sc e e', py_stmt true x sc e = Some e' -> py_stmt false x sc e = Some e'.
+Proof.
+  assert (Hof : forall (body : list stmt) (sc : pscope),
+             Forall (fun x => forall sc e e', py_stmt true x sc e = Some e' -> py_stmt false x sc e = Some e') body ->
+             forall e e', ofold (fun y e0 => py_stmt true y sc e0) body e = Some e' -> ofold (fun y e0 => py_stmt false y sc e0) body e = Some e').
+  { intros body sc HF. induction HF as [|y body Hy _ IH]; cbn [ofold]; intros e e' H; auto.
+    destruct (py_stmt true y sc e) as [e1|] eqn:E; [|discriminate]. rewrite (Hy _ _ _ E). auto. }
+  assert (Hun : forall ns e e', ofold (bind_unpacked true) ns e = Some e' -> ofold (bind_unpacked false) ns e = Some e').
+  { induction ns as [|n ns IH]; cbn [ofold]; intros e e' H; auto.
+    destruct (bind_unpacked true n e) as [e1|] eqn:E; [|discriminate].
+    assert (E' : bind_unpacked false n e = Some e1).
+    { unfold bind_unpacked in *. cbn in *. destruct (literal_bound n e); [discriminate|exact E]. }
+    rewrite E'. auto. }
+  assert (Hbt : forall v t e e', bind_target true v t e = Some e' -> bind_target false v t e = Some e').
+  { intros v t e e' H. destruct t; cbn in *; auto. }
+  assert (Hts : forall v ts e e', ofold (bind_target true v) ts e = Some e' -> ofold (bind_target false v) ts e = Some e').
+  { induction ts as [|t ts IH]; cbn [ofold]; intros e e' H; auto.
+    destruct (bind_target true v t e) as [e1|] eqn:E; [|discriminate]. rewrite (Hbt _ _ _ _ E). auto. }
+  intro x. induction x as [nm ds a body IH|nm bs body IH|ts r|t an r|t r|d|t b o IHb IHo|b h o f IHb IHh IHo IHf|b IHb|t b o IHb IHo|b o IHb IHo|ns|]
+    using stmt_ind'; intros sc e e' H; cbn [py_stmt] in *; auto.
+  - destruct (bases_exc e bs); [|discriminate].
+    destruct (ofold (fun y e0 => py_stmt true y PClass e0) body []) as [ns|] eqn:E; [|discriminate].
+    rewrite (Hof _ _ IH _ _ E). exact H.
+  - destruct (assign_value sc e ts r); [|discriminate]. auto.
+  - destruct t; auto. destruct (nonbinding_suite o); [|discriminate]. apply (Hof _ _ IHb). exact H.
+  - destruct (nonbinding_suite h && nonbinding_suite o && nonbinding_suite f); [|discriminate]. apply (Hof _ _ IHb). exact H.
+  - destruct (nonbinding_suite o); [|discriminate]. destruct (bind_aux t e); [|discriminate]. apply (Hof _ _ IHb). exact H.
+  - destruct (nonbinding_suite o); [|discriminate]. apply (Hof _ _ IHb). exact H.
+Qed.
+
+Lemma py_exec_strict_lax : forall prog e, py_exec_strict prog = Some e -> py_exec prog = Some e.
+Proof.
+  intros prog e. unfold py_exec_strict, py_exec, py_body. generalize (@nil (name * pyval)) as e0. revert e.
+  induction prog as [|x prog IH]; cbn; intros e e0 H; auto.
+  destruct (py_stmt true x PModule e0) as [e1|] eqn:E; [|discriminate]. rewrite (py_strict_lax _ _ _ _ E). auto.
 Qed.
 
 (* ================================================================ attribute docstrings (builder.currentAttr) *)
